@@ -21,4 +21,24 @@ def judge_names(req, rr):
     return False, 'no observation (exit %s) %s' % (rr['exit'], rr['tail'][-300:])
 
 
-JUDGES = {'names': judge_names}
+def judge_push_attributes(req, rr):
+    for o in rr['obs']:
+        if o.get('scenario') == 'push_attributes':
+            if o['pushed'] != o['published']:
+                return True, 'published attributes %r, push payload carries %r' % (o['published'], o['pushed'])
+            return False, 'push payload carries the published attributes'
+    return False, 'no observation (exit %s) %s' % (rr['exit'], rr['tail'][-300:])
+
+
+def judge_streaming_bad_modify(req, rr):
+    for o in rr['obs']:
+        if o.get('scenario') == 'streaming_bad_modify_after_ack':
+            # the request was rejected (stream ended with an error): nothing of it may have been applied,
+            # so both messages must still be deliverable after the deadline
+            if sorted(o['still_deliverable']) != ['one', 'two']:
+                return True, 'request rejected with %s but its ack was applied: still deliverable %r' % (o['status'], o['still_deliverable'])
+            return False, 'rejected request changed nothing (%s)' % o['status']
+    return False, 'no observation (exit %s) %s' % (rr['exit'], rr['tail'][-300:])
+
+
+JUDGES = {'names': judge_names, 'push_attributes': judge_push_attributes, 'streaming_bad_modify': judge_streaming_bad_modify}
